@@ -975,3 +975,49 @@ func FamPanicTwice(seed int64) SysRecord {
 	}
 	return rec
 }
+
+// FamHealthyStaysUp — things that must NOT end a link: the context of one invocation of a callable is
+// cancelled while that invocation is in flight; a per-call context is cancelled; a handler returns an
+// error. Link may not return on either side.
+func FamHealthyStaysUp(seed int64) SysRecord {
+	c := jsonRawCodec()
+	rec := SysRecord{Family: "linkend", Config: "json-raw a healthy link: invocation context cancelled, call cancelled, application error", Seed: seed}
+	p, err := newPair(c, seed%2 == 1, -1, seed)
+	if err != nil {
+		rec.Notes = append(rec.Notes, err.Error())
+		return rec
+	}
+	ctx, cancel := context.WithTimeout(context.Background(), 10*time.Second)
+	defer cancel()
+	rel := make(chan struct{})
+	var once sync.Once
+	p.ra.IterDerived(ctx, 975, func(ctx context.Context, i int, s string, xs []int, b bool) (string, error) {
+		if i == 2 {
+			once.Do(func() { close(rel) })
+		} else {
+			select {
+			case <-rel:
+			case <-time.After(4 * time.Second):
+			}
+		}
+		return "r", nil
+	})
+	once.Do(func() { close(rel) })
+	cctx, ccancel := context.WithCancel(ctx)
+	go func() { time.Sleep(20 * time.Millisecond); ccancel() }()
+	p.ra.GateCtx(cctx, 976)
+	close(p.w.gate(976))
+	p.ra.Fail(ctx, 977, "application error")
+	time.Sleep(100 * time.Millisecond)
+	for k, ch := range []chan error{p.l.ErrA, p.l.ErrB} {
+		select {
+		case e := <-ch:
+			rec.Calls = append(rec.Calls, SysCall{Tag: 978 + k, Method: "LinkStillUp", Ret: "RETURNED", Err: errText(e), Extra: []string{"caller side", "callee side"}[k], Done: true})
+			ch <- e
+		default:
+			rec.Calls = append(rec.Calls, SysCall{Tag: 978 + k, Method: "LinkStillUp", Ret: "up", Extra: []string{"caller side", "callee side"}[k], Done: true})
+		}
+	}
+	p.close()
+	return rec
+}
